@@ -106,8 +106,17 @@ private:
 	// Discard the object's attributes
 	void discardAttributes();
 
+	// Discard the copy of the attributes kept for an open transaction
+	void discardBackup();
+
 	// The object's raw attributes
 	std::map<CK_ATTRIBUTE_TYPE, OSAttribute*> attributes;
+
+	// Copy of the attributes taken when a transaction was started
+	std::map<CK_ATTRIBUTE_TYPE, OSAttribute*> transactionBackup;
+
+	// Are we in a transaction?
+	bool inTransaction;
 
 	// The object's validity state
 	bool valid;
